@@ -11,9 +11,12 @@ PROPS = ["Invoke/Props/C19.lean"]
 TARGETS = ["drv_config"]
 DRIVER_ROOTS = ["Driver/Config.lean"]
 GENERATED = ["Clone"]
-RULE = ("a case is one session of the real Executor.execute over a namespace tree (root + s1 + s1.inner + s2, each with "
-        "its own nested collection settings) with 1-5 requested tasks (sometimes none: the default task), pre/post tasks "
-        "from other sub-collections, bodies that record the deep view of context.config and then perform generated "
+RULE = ("a case is one session (one or two execute() calls on the same Executor/Config objects) over a random namespace tree "
+        "of depth <=4 (every collection with its own nested settings, names with inner underscores, task aliases, default "
+        "tasks and default sub-collections at every level) with 1-5 requested tasks per call, each invoked through ANY name "
+        "the collection resolves for it (primary dotted name, alias, default-task / default-sub-collection shortcut, "
+        "underscore or dash spelling; consecutive calls biased to the same task under another name / the same, parent or "
+        "child namespace), sometimes no name (the root default), pre/post tasks from other sub-collections, bodies that record the deep view of context.config and then perform generated "
         "writes / deletions / nested edits / dict-protocol mutations and change os.environ for the following tasks; "
         "oracle per executed task: view = journal of all earlier tasks' edits replayed over the merge of the levels with "
         "collection := deep merge of the settings along ITS OWN namespace path (outer wins) and env := the environment as it "
@@ -78,6 +81,8 @@ def gen_body(rng, n):
                 op["op"] = "DA"
             elif w < 0.8:
                 op.update(op="POP", d=0)
+            elif not path:
+                op["op"] = "DI"  # (popitem / clear at the root would remove the executor's own tasks.dedupe setting)
             elif w < 0.9:
                 op["op"] = "PI"
                 del op["k"]
@@ -92,73 +97,187 @@ def gen_body(rng, n):
     return ops
 
 
-NODES = {"": [], "s1": ["s1"], "s1.inner": ["s1", "inner"], "s2": ["s2"]}
-TASKS = ["top", "top2", "s1.t1", "s1.t2", "s1.inner.t", "s2.t1", "s2.t2"]
+COLL_NAMES = ["s1", "db_tools", "web", "in_ner", "x2", "ops_a"]
+TASK_NAMES = ["t1", "run_it", "go", "push_all", "t2"]
+ALIASES = ["al", "do_it", "z9"]
 
 
-def coll_of(tag):
-    return tag.rsplit(".", 1)[0] if "." in tag else ""
+def gen_node(rng, name, depth, prefix, bodies, counter):
+    """random namespace node: own settings, 1-3 tasks (aliases, maybe a default), sub-collections up to depth 4"""
+    node = {"name": name, "cfg": c06.tree(rng, dens=0.45) if rng.random() < 0.85 else {}, "tasks": [], "subs": [],
+            "default_task": None, "default_sub": None}
+    here = prefix + [name] if name else prefix
+    for tn in rng.sample(TASK_NAMES, rng.randint(1, 3) if name else rng.randint(1, 2)):
+        tag = ".".join(here + [tn])
+        al = [a + str(counter[0])[-1:] for a in rng.sample(ALIASES, rng.choice([0, 0, 1, 2]))]
+        counter[0] += 1
+        node["tasks"].append({"name": tn, "aliases": al, "tag": tag})
+        bodies[tag] = {"pre": [], "post": [], "ops": gen_body(rng, rng.randint(0, 3))}
+    if depth < 4:
+        nsub = rng.choice([0, 1, 1, 2]) if depth > 1 else rng.choice([1, 2, 3])
+        for sn in rng.sample(COLL_NAMES, nsub):
+            node["subs"].append(gen_node(rng, sn, depth + 1, here, bodies, counter))
+    r = rng.random()
+    if r < 0.6:
+        node["default_task"] = rng.choice(node["tasks"])["name"]
+    elif r < 0.85 and node["subs"]:
+        node["default_sub"] = rng.choice(node["subs"])["name"]
+    return node
+
+
+def default_tag(node):
+    """the task a collection's default resolves to (following default sub-collections), or None"""
+    if node["default_task"]:
+        return next(t["tag"] for t in node["tasks"] if t["name"] == node["default_task"])
+    if node["default_sub"]:
+        return default_tag(next(s for s in node["subs"] if s["name"] == node["default_sub"]))
+    return None
+
+
+def walk(node, prefix=(), cfgs=()):
+    """yields (node, dotted-path components, settings along the path root..node)"""
+    here = prefix + ((node["name"],) if node["name"] else ())
+    chain = cfgs + (node["cfg"],)
+    yield node, here, chain
+    for s in node["subs"]:
+        yield from walk(s, here, chain)
+
+
+def spellings(rng_or_none, comps):
+    """the dotted name in the spelling given and with inner underscores written as dashes"""
+    a = ".".join(comps)
+    b = ".".join(c[0] + c[1:-1].replace("_", "-") + c[-1] if len(c) > 2 else c for c in comps)
+    return [a] if a == b else [a, b]
+
+
+def index_tree(tree):
+    """BY CONSTRUCTION: tag -> settings along its own namespace path; tag -> every name that invokes it
+    (primary dotted name, aliases, default-task / default-sub-collection shortcuts; both spellings)"""
+    cfgs, names, coll = {}, {}, {}
+    for node, here, chain in walk(tree):
+        for t in node["tasks"]:
+            cfgs[t["tag"]] = list(chain)
+            coll[t["tag"]] = ".".join(here)
+            ns = []
+            for n in [t["name"]] + t["aliases"]:
+                ns += spellings(None, list(here) + [n])
+            names[t["tag"]] = ns
+    for node, here, chain in walk(tree):
+        d = default_tag(node)
+        if d and here:
+            names[d] += spellings(None, list(here))
+    return cfgs, names, coll
+
+
+def coll_of(case, tag):
+    return case["_coll"][tag]
 
 
 def gen_session(rng, prepost=0.3):
-    cfgs = {node: c06.tree(rng, dens=0.5) if rng.random() < 0.85 else {} for node in NODES}
-    tasks = {t: {"pre": [], "post": [], "ops": gen_body(rng, rng.randint(0, 4))} for t in TASKS}
+    bodies = {}
+    tree = gen_node(rng, None, 1, [], bodies, [rng.randint(0, 9)])
+    cfgs, names, coll = index_tree(tree)
+    tags = sorted(bodies)
     if rng.random() < prepost:
         for _ in range(rng.randint(1, 2)):
-            t = rng.choice(TASKS)
-            other = rng.choice([x for x in TASKS if x != t])
-            if not tasks[other]["pre"] and not tasks[other]["post"] and not any(
-                    t in tasks[x]["pre"] + tasks[x]["post"] for x in TASKS):
-                tasks[t][rng.choice(["pre", "post"])].append(other)
-    request = [rng.choice(TASKS) for _ in range(rng.randint(1, 5))]
-    with_pp = [t for t in TASKS if tasks[t]["pre"] or tasks[t]["post"]]
-    if with_pp and not any(t in request for t in with_pp):
-        request[rng.randrange(len(request))] = rng.choice(with_pp)
-    default = None
-    if rng.random() < 0.12:
-        request = []
-        default = rng.choice(["top", "s1", "s2"])
+            t = rng.choice(tags)
+            other = rng.choice([x for x in tags if x != t] or [t])
+            if other != t and not bodies[other]["pre"] and not bodies[other]["post"] and not any(
+                    t in bodies[x]["pre"] + bodies[x]["post"] for x in tags):
+                bodies[t][rng.choice(["pre", "post"])].append(other)
+    with_pp = [t for t in tags if bodies[t]["pre"] or bodies[t]["post"]]
+
+    def related(tag):
+        c = coll[tag]
+        near = [x for x in tags if coll[x] == c or coll[x].startswith(c + ".") or c.startswith(coll[x] + ".")
+                or coll[x].rsplit(".", 1)[0] == c.rsplit(".", 1)[0]]
+        return rng.choice(near or tags)
+
+    calls = []
+    for _ in range(rng.choice([1, 1, 1, 2])):
+        req, prev = [], None
+        for _ in range(rng.randint(1, 5)):
+            r = rng.random()
+            if prev is not None and r < 0.25:
+                tag = prev
+            elif prev is not None and r < 0.6:
+                tag = related(prev)
+            else:
+                tag = rng.choice(with_pp) if with_pp and rng.random() < 0.2 else rng.choice(tags)
+            req.append(rng.choice(names[tag]))
+            prev = tag
+        if rng.random() < 0.08 and default_tag(tree):
+            req = []
+        calls.append(req)
     env0 = {}
     if rng.random() < 0.5:
         for _ in range(rng.randint(1, 3)):
             p = rng.choice([k for k, v in c06.SHAPE.items() if v == "leaf" and k[-1] != "d" and not c06.in_mods_only(k)])
             env0["_".join(p).upper()] = rng.choice(["0", "1", "7", "42"])
-    return {"kind": "session", "defaults": dict(copy.deepcopy(DEFAULTS), **c06.tree(rng, dens=0.4)),
-            "overrides": c06.tree(rng, dens=0.15), "cfgs": cfgs, "tasks": tasks, "request": request, "default": default,
-            "env0": env0}
+    return {"kind": "session", "v": 2, "defaults": dict(copy.deepcopy(DEFAULTS), **c06.tree(rng, dens=0.4)),
+            "overrides": c06.tree(rng, dens=0.15), "tree": tree, "bodies": bodies, "calls": calls, "env0": env0}
+
+
+def upgrade(case):
+    """sessions recorded in the first format (fixed tree root/s1/s1.inner/s2) -> the general format"""
+    if case.get("v") == 2:
+        return case
+    def node(name, path, tnames, subs):
+        return {"name": name, "cfg": case["cfgs"][path], "subs": subs, "default_task": None, "default_sub": None,
+                "tasks": [{"name": t, "aliases": [], "tag": (path + "." if path else "") + t} for t in tnames]}
+    inner = node("inner", "s1.inner", ["t"], [])
+    s1, s2 = node("s1", "s1", ["t1", "t2"], [inner]), node("s2", "s2", ["t1", "t2"], [])
+    root = node(None, "", ["top", "top2"], [s1, s2])
+    d = case.get("default")
+    if d == "top":
+        root["default_task"] = "top"
+    elif d in ("s1", "s2"):
+        root["default_sub"] = d
+        (s1 if d == "s1" else s2)["default_task"] = "t1"
+    return {"kind": "session", "v": 2, "defaults": case["defaults"], "overrides": case["overrides"], "tree": root,
+            "bodies": case["tasks"], "calls": [case["request"]], "env0": case["env0"]}
 
 
 # ------------------------------------------------------------------ running the real executor
 
+def prepare(case):
+    case = upgrade(case)
+    case["_cfgs"], case["_names"], case["_coll"] = index_tree(case["tree"])
+    case["_resolve"] = {n: tag for tag, ns in case["_names"].items() for n in ns}
+    return case
+
+
 def expansion(case):
-    """(tag, called_as_none) in execution order: pre tasks, the task, post tasks (no dedupe)"""
+    """(tag, called_as_none) in execution order: pre tasks, the task, post tasks (no dedupe), over all execute() calls"""
     out = []
 
     def expand(tag, none):
-        for p in case["tasks"][tag]["pre"]:
+        for p in case["bodies"][tag]["pre"]:
             expand(p, True)
         out.append((tag, none))
-        for p in case["tasks"][tag]["post"]:
+        for p in case["bodies"][tag]["post"]:
             expand(p, True)
-    if case["request"]:
-        for t in case["request"]:
-            expand(t, False)
-    else:
-        d = case["default"]
-        expand({"top": "top", "s1": "s1.t1", "s2": "s2.t1"}[d], True)
+    for req in case["calls"]:
+        if req:
+            for n in req:
+                expand(case["_resolve"][n], False)
+        else:
+            expand(default_tag(case["tree"]), True)
     return out
 
 
 def run_session(case):
-    """Runs the real Executor.  Returns (record, escaped): record = [(tag, view, environ, [(op, result)...])]."""
+    """Runs the real Executor.  Returns (record, escaped): record = [(tag, view, environ, [(op, result, view)...])]."""
+    import os
     from invoke import Collection, Task, Executor, Config
     record = []
     task_objs = {}
+    prefix = "INVOKE_"
 
     def mk(tag):
         def body(c):
             cfg = c.config
-            environ = {k[len(prefix):]: v for k, v in __import__("os").environ.items() if k.startswith(prefix)}
+            environ = {k[len(prefix):]: v for k, v in os.environ.items() if k.startswith(prefix)}
             try:
                 view = cfglib.plain(cfg)
             except Exception as e:
@@ -167,12 +286,12 @@ def run_session(case):
             record.append((tag, view, environ, steps))
             impl = cfglib.Impl()
             impl.objs = [cfg]
-            for op in case["tasks"][tag]["ops"]:
+            for op in case["bodies"][tag]["ops"]:
                 if op["op"] == "SETENV":
-                    __import__("os").environ[prefix + op["var"]] = op["val"]
+                    os.environ[prefix + op["var"]] = op["val"]
                     continue
                 if op["op"] == "UNSETENV":
-                    __import__("os").environ.pop(prefix + op["var"], None)
+                    os.environ.pop(prefix + op["var"], None)
                     continue
                 op = copy.deepcopy(op)
                 r = impl.apply(op)
@@ -181,44 +300,58 @@ def run_session(case):
                 except Exception as e:
                     v = "!" + cfglib.errname(e)
                 steps.append((op, r, v))
-        body.__name__ = tag.replace(".", "_")
+        body.__name__ = "body"
         return body
 
-    prefix = "INVOKE_"
+    info = {}
+    for node, here, _ in walk(case["tree"]):
+        for t in node["tasks"]:
+            info[t["tag"]] = t
     # tasks without pre/post first so that the objects exist when referenced
-    order = sorted(case["tasks"], key=lambda t: bool(case["tasks"][t]["pre"] or case["tasks"][t]["post"]))
-    for tag in order:
-        spec = case["tasks"][tag]
-        task_objs[tag] = Task(mk(tag), name=tag.rsplit(".", 1)[-1], pre=[task_objs[p] for p in spec["pre"]],
+    for tag in sorted(case["bodies"], key=lambda t: bool(case["bodies"][t]["pre"] or case["bodies"][t]["post"])):
+        spec = case["bodies"][tag]
+        task_objs[tag] = Task(mk(tag), name=info[tag]["name"], pre=[task_objs[p] for p in spec["pre"]],
                               post=[task_objs[p] for p in spec["post"]])
-    colls = {"": Collection()}
-    for node in ("s1", "s1.inner", "s2"):
-        colls[node] = Collection(node.rsplit(".", 1)[-1])
-    for node, c in colls.items():
-        c.configure(copy.deepcopy(case["cfgs"][node]))
-    d = case["default"]
-    for tag in TASKS:
-        node = coll_of(tag)
-        is_default = (d == "top" and tag == "top") or (d in ("s1", "s2") and tag == d + ".t1")
-        colls[node].add_task(task_objs[tag], name=tag.rsplit(".", 1)[-1], default=is_default)
-    colls["s1"].add_collection(colls["s1.inner"])
-    colls[""].add_collection(colls["s1"], default=(d == "s1"))
-    colls[""].add_collection(colls["s2"], default=(d == "s2"))
+
+    def build(node):
+        c = Collection(node["name"]) if node["name"] else Collection()
+        c.configure(copy.deepcopy(node["cfg"]))
+        for t in node["tasks"]:
+            c.add_task(task_objs[t["tag"]], name=t["name"], aliases=tuple(t["aliases"]),
+                       default=(t["name"] == node["default_task"]))
+        for s in node["subs"]:
+            c.add_collection(build(s), default=(s["name"] == node["default_sub"]))
+        return c
+
+    root = build(case["tree"])
+    # the names computed by construction must be names the collection resolves to that very task
+    bad = [n for n, tag in case["_resolve"].items() if _lookup(root, n) is not task_objs[tag]]
     cfg = Config(defaults=copy.deepcopy(case["defaults"]), overrides=copy.deepcopy(case["overrides"]), lazy=True,
                  **cfglib.NOFILES)
     escaped = None
     with cfglib.EnvPatch(prefix, case["env0"]):
-        try:
-            Executor(colls[""], cfg).execute(*case["request"])
-        except Exception as e:  # anything escaping execute() comes from configuration handling (bodies catch their own)
-            escaped = cfglib.errname(e) + " " + repr(e)[:200]
+        ex = Executor(root, cfg)
+        for req in case["calls"]:
+            if any(n in bad for n in req):
+                escaped = "harness: name(s) %s do not resolve as constructed" % [n for n in req if n in bad]
+                break
+            try:
+                ex.execute(*req)
+            except Exception as e:  # anything escaping execute() comes from configuration handling (bodies catch their own)
+                escaped = cfglib.errname(e) + " " + repr(e)[:200]
+                break
     return record, escaped
 
 
+def _lookup(root, name):
+    try:
+        return root[name]
+    except Exception:
+        return None
+
+
 def path_cfgs(case, tag):
-    node = coll_of(tag)
-    parts = NODES[node]
-    return [case["cfgs"][""]] + [case["cfgs"][".".join(parts[:i + 1])] for i in range(len(parts))]
+    return case["_cfgs"][tag]
 
 
 def ns_expected(case, tag):
@@ -256,7 +389,7 @@ def judge(case, record, escaped):
             sig = "other"
             if none:
                 try:
-                    alt.reload("collection", case["cfgs"][""])
+                    alt.reload("collection", case["tree"]["cfg"])
                     alt.load_env(environ)
                     if cfglib.canon(alt.tree) == cfglib.canon(view):
                         sig = "C19-called-as-none-root-only"
@@ -277,6 +410,8 @@ def judge(case, record, escaped):
             if cfglib.canon(v) != cfglib.canon(ref.tree):
                 return ("after %s in task %s the config reads %s, the nested dict %s" % (
                     cfglib.op_txt(op), tag, cfglib.canon(v), cfglib.canon(ref.tree))), "other", ops, rows
+    if escaped and escaped.startswith("harness:"):
+        return None, None, ops, rows
     if escaped:
         return "execute() failed inside configuration handling: %s" % escaped, "other", ops, rows
     if len(record) != len(exp):
@@ -285,8 +420,12 @@ def judge(case, record, escaped):
 
 
 def check(case):
+    case = prepare(case)
     record, escaped = run_session(case)
-    return judge(case, record, escaped) + (record,)
+    res = judge(case, record, escaped) + (record,)
+    for k in [k for k in case if k.startswith("_")]:
+        del case[k]
+    return res
 
 
 def replay(case):
@@ -306,19 +445,41 @@ def run(ctx):
     rng = ctx.rng
     drv = LeanDriver("drv_config")
     lines, rows_all, ran = [], [], []
-    for i in range(ctx.n(5000, 60000)):
+    for i in range(ctx.n(3500, 45000)):
         case = gen_session(rng, prepost=0.3 if i % 2 else 0.0)
         why, sig, ops, rows, record = check(case)
+        _, names, coll = index_tree(case["tree"])
+        resolve = {n: tag for tag, ns in names.items() for n in ns}
         tags = [r[0] for r in record]
         edits = [1 for r in record for op, res, v in r[3] if op["op"] in cfglib.MUTATORS and not res.startswith("E:")]
-        out.case(case, len({coll_of(t) for t in tags}) >= 2 and bool(edits))
+        out.case(case, len({coll[t] for t in tags}) >= 2 and bool(edits))
         out.hist["sessions"] += 1
         out.hist["tasks_executed"] += len(tags)
         out.hist["edits_ok"] += len(edits)
-        out.hist["with_prepost"] += any(case["tasks"][t]["pre"] or case["tasks"][t]["post"] for t in case["request"])
-        out.hist["default_task"] += not case["request"]
-        out.hist["env_changes"] += sum(1 for t in tags for o in case["tasks"][t]["ops"] if o["op"] in ("SETENV", "UNSETENV"))
-        out.hist["namespace_switches"] += sum(1 for a, b in zip(tags, tags[1:]) if coll_of(a) != coll_of(b))
+        out.hist["execute_calls"] += len(case["calls"])
+        out.hist["default_task_call"] += sum(1 for r in case["calls"] if not r)
+        out.hist["env_changes"] += sum(1 for t in tags for o in case["bodies"][t]["ops"] if o["op"] in ("SETENV", "UNSETENV"))
+        out.hist["namespace_switches"] += sum(1 for a, b in zip(tags, tags[1:]) if coll[a] != coll[b])
+        for req in case["calls"]:
+            out.hist["with_prepost"] += any(case["bodies"][resolve[n]]["pre"] or case["bodies"][resolve[n]]["post"] for n in req)
+            for n, n2 in zip(req, req[1:]):
+                t1, t2 = resolve[n], resolve[n2]
+                out.hist["consecutive_same_task_other_name"] += (t1 == t2 and n != n2)
+                out.hist["consecutive_same_namespace"] += (t1 != t2 and coll[t1] == coll[t2])
+                out.hist["consecutive_parent_child"] += (coll[t1] != coll[t2] and (
+                    (coll[t1] + ".").startswith(coll[t2] + ".") or (coll[t2] + ".").startswith(coll[t1] + ".")
+                    or coll[t1] == "" or coll[t2] == ""))
+            for n in req:
+                tag = resolve[n]
+                depth = len(coll[tag].split(".")) + 1 if coll[tag] else 1
+                primary = tag
+                kind = ("shortcut" if n.count(".") < tag.count(".") else
+                        "alias" if n.replace("-", "_").rsplit(".", 1)[-1] != tag.rsplit(".", 1)[-1] else "primary")
+                out.hist["name_" + kind] += 1
+                out.hist["name_dashed_spelling"] += ("-" in n)
+                out.hist["call_depth_%d" % depth] += 1
+                if kind == "shortcut":
+                    out.hist["shortcut_depth_%d" % (n.count(".") + 1)] += 1
         if why:
             out.hist["oracle_" + sig] += 1
             if sig not in KNOWN_SIGS or out.hist["oracle_" + sig] <= 12:
